@@ -42,8 +42,17 @@ impl<'a> WireFormat<'a> for NSEC<'a> {
                 return Err(crate::SimpleDnsError::AttemptedInvalidOperation);
             }
 
+            if *position >= data.len() {
+                return Err(crate::SimpleDnsError::InsufficientData);
+            }
+
             let bitmap_length = data[*position];
             *position += 1;
+
+            if *position + bitmap_length as usize > data.len() {
+                return Err(crate::SimpleDnsError::InsufficientData);
+            }
+
 
             let bitmap = &data[*position..*position + bitmap_length as usize];
             *position += bitmap_length as usize;
